@@ -36,6 +36,7 @@ EXCLUDED_KEYS = {
 	'escape': 'escape-merge-concat',
 	'prefix': 'prefixed-string-verbatim',
 }
+MALFORMED_REGIONS = {'badref', 'confuse', 'tilde', 'otherfn', 'arity', 'upperhex', 'fmt'}
 REGION_FEATURE = {'triple', 'prefix', 'escape', 'strstr', 'arity'}
 KEY_PRIORITY = ['strstr', 'triple', 'arity2', 'prefix', 'escape', 'bigdiv']
 
@@ -81,9 +82,10 @@ LEVELS = [('or', ['|']), ('xor', ['^']), ('and', ['&']), ('shift', ['<<', '>>'])
 class Gen:
 	"""Grammar-directed generator (levels of data/grammar.lark: or_expr > xor_expr > and_expr > shift_expr > sum > term > factor > primary)."""
 
-	def __init__(self, rng: random.Random, regions: frozenset[str], max_depth: int) -> None:
+	def __init__(self, rng: random.Random, regions: frozenset[str], max_depth: int, boost: float = 1.0) -> None:
 		self.rng = rng
 		self.regions = regions
+		self.boost = boost  # > 1: the malformed stream (type confusion, bad references, ~, other calls, odd arities, 0X)
 		self.max_depth = max_depth
 		self.feats: set[str] = set()
 		self.same: list[Member] = []      # earlier members of the enum being generated
@@ -95,6 +97,8 @@ class Gen:
 		if region in REGION_FEATURE and self.excluded():
 			# at most ONE excluded region per member (and its references), so that a finding can be keyed by it
 			return False
+		if region in MALFORMED_REGIONS:
+			p = min(1.0, p * self.boost)
 		return region in self.regions and self.rng.random() < p
 
 	def excluded(self) -> set[str]:
@@ -364,7 +368,9 @@ class Gen:
 		if name == 'shift' and kind == 'int':
 			# shift counts: small literals most of the time (the rest is checked by `apply`)
 			for i in range(1, n):
-				if rng.random() < 0.8:
+				# a count whose value the generator cannot foresee (forward reference, raising operand) is never left in place:
+				# the real evaluator follows forward references and would build an integer of that many bits
+				if rng.random() < 0.8 or type(vals[i]) is not int:
 					c = rng.randint(0, 70) if rng.random() < 0.93 else -rng.randint(1, 3)
 					texts[i] = str(c) if c >= 0 else f'-{-c}'
 					vals[i] = c
@@ -393,8 +399,8 @@ class Gen:
 		return '1', 1, set()
 
 
-def gen_module(rng: random.Random, regions: frozenset[str], max_depth: int, n_enums: int, n_members: int) -> list[list[Member]]:
-	g = Gen(rng, regions, max_depth)
+def gen_module(rng: random.Random, regions: frozenset[str], max_depth: int, n_enums: int, n_members: int, boost: float = 1.0) -> list[list[Member]]:
+	g = Gen(rng, regions, max_depth, boost)
 	enums: list[list[Member]] = []
 	for ei in range(n_enums):
 		g.enum = f'E{ei}'
@@ -709,7 +715,7 @@ class Case:
 		self.env_line = ''
 		self.oracle: dict[str, str] = {}
 		self.error: str | None = None
-		self.unstable: list[tuple[str, str, str]] = []
+		self.real2: dict[str, str] = {}  # the same evaluator instance asked again, in shuffled order
 
 
 def observe(app: Any, case: Case, rng: random.Random | None = None) -> None:
@@ -731,9 +737,7 @@ def observe(app: Any, case: Case, rng: random.Random | None = None) -> None:
 	order = list(case.members)
 	(rng or random.Random(len(case.source))).shuffle(order)
 	for m in order:
-		again = real_result(evaluator, nodes[m.key])
-		if again != case.real[m.key]:
-			case.unstable.append((m.key, case.real[m.key], again))
+		case.real2[m.key] = real_result(evaluator, nodes[m.key])
 	case.py = python_results(case.enums)
 	enc: list[str] = []
 	for ms in case.enums:
@@ -793,7 +797,10 @@ def make_cases(ctx: Ctx, app: Any, name: str, n: int, regions: frozenset[str], c
 			cases.append(Case(enums, f'corpus:{label}'))
 	for i in range(n):
 		depth = 1 + i % 4 if not ctx.thorough else 1 + i % 5
-		cases.append(Case(gen_module(rng, regions, depth, 1 + i % 3, 4 + i % 5), f'{name}#{i}'))
+		if i % 5 == 4:
+			cases.append(Case(gen_module(rng, regions, depth, 1 + i % 3, 4 + i % 5, boost=5.0), f'malformed#{i}'))
+		else:
+			cases.append(Case(gen_module(rng, regions - MALFORMED_REGIONS, depth, 1 + i % 3, 4 + i % 5), f'{name}#{i}'))
 	for c in cases:
 		try:
 			observe(app, c, rng)
@@ -940,7 +947,7 @@ def search_real(ctx: Ctx, app: Any, seen_cases: list[Case]) -> SearchResult:
 	for i in range(n):
 		depth = 1 + i % 5
 		regions = regions_in if i % 3 else regions_all
-		c = Case(gen_module(rng, regions, depth, 1 + i % 3, 4 + i % 6), f'search#{i}')
+		c = Case(gen_module(rng, regions, depth, 1 + i % 3, 4 + i % 6, boost=3.0 if i % 7 == 6 else 1.0), f'search#{i}')
 		try:
 			observe(app, c, rng)
 		except Unencodable:
@@ -960,11 +967,6 @@ def search_real(ctx: Ctx, app: Any, seen_cases: list[Case]) -> SearchResult:
 			continue
 		if not c.py:
 			c.py = python_results(c.enums)
-		for key, first, again in c.unstable[:1]:
-			hist['finding:history-dependent'] = hist.get('finding:history-dependent', 0) + 1
-			if sum(1 for f in res.findings if f.key == 'history-dependent') < 3:
-				res.findings.append(Finding(key='history-dependent', what=f'{key}: the same evaluator instance gives {first} on the first exec() and {again} on a later one',
-					replay={'source': c.source, 'member': key, 'first': first, 'again': again}))
 		for m in c.members:
 			res.cases += 1
 			texts.add(m.text)
@@ -973,6 +975,15 @@ def search_real(ctx: Ctx, app: Any, seen_cases: list[Case]) -> SearchResult:
 				continue
 			feats = set(m.feats)
 			bad = compare(real, py, 'escape' in feats)
+			again = c.real2.get(m.key, real)
+			if not bad and again != real:
+				hist['second-exec-differs'] = hist.get('second-exec-differs', 0) + 1
+				bad2 = compare(again, py, 'escape' in feats)
+				if bad2:
+					hist['finding:history-dependent'] = hist.get('finding:history-dependent', 0) + 1
+					if sum(1 for f in res.findings if f.key == 'history-dependent') < 3:
+						res.findings.append(Finding(key='history-dependent', what=f'{m.key} = {m.text}: a later exec() on the same evaluator instance: {bad2} (first exec: {real})',
+							replay={'source': c.source, 'member': m.key, 'text': m.text, 'exec': again, 'first_exec': real, 'eval': show_py(py), 'features': sorted(feats)}))
 			cls = ('refused' if real.startswith('Errors.') else 'value') + '/' + ('py-error' if _is_exc(py) else 'py-value')
 			hist[cls] = hist.get(cls, 0) + 1
 			if cls == 'value/py-error':
@@ -988,6 +999,8 @@ def search_real(ctx: Ctx, app: Any, seen_cases: list[Case]) -> SearchResult:
 						replay={'source': c.source, 'member': m.key, 'text': m.text, 'exec': real, 'eval': show_py(py), 'features': sorted(feats)}))
 			elif len(res.samples) < 3 and not real.startswith('Errors.') and len(m.text) > 12:
 				res.samples.append({'member': m.text, 'exec': real, 'eval': show_py(py)})
+	novel = [f for f in res.findings if f.key not in EXCLUDED_KEYS.values()]
+	res.findings = novel + [f for f in res.findings if f.key in EXCLUDED_KEYS.values()]
 	res.distinct = len(texts)
 	res.histogram = hist
 	res.note = ('every member of the correspondence cases, of the corpus and of further generated modules (one third with the excluded regions: '
@@ -1000,15 +1013,18 @@ def search_real(ctx: Ctx, app: Any, seen_cases: list[Case]) -> SearchResult:
 
 
 STATEMENTS = {
-	'sound': 'for every expression, environment and fuel: if CPython (strict mode = regions H1-H5 cut out) evaluates e to v\' then the folder returns v ≈ v\' (same type, same value, string content) or refuses (OperationNotAllowed / recursion limit) — by induction over the fuel and the flat chains',
-	'agree': 'execImpl e = ok v and evalPy e = ok v\' imply v ≈ v\', under the guard that CPython\'s own result is the strict-mode result (H1 int/int division = float(a)/float(b), H2 plain quoted strings, H3 str() not applied to a string, H5 casts have one argument)',
-	'refuse': 'an error of execImpl is OperationNotAllowed, the recursion limit, or CPython raises on e as well',
-	'chain': 'evaluating the left-nested tree CPython builds for a flat chain = the left fold over the chain',
-	'consistent_bindAll': 'executing the Enum bodies top to bottom yields an environment consistent with the folder\'s member lookup when member keys are distinct',
-	'strcast_counterexample': 'without H3 agreement fails: str(\'x\') folds to "\'x\'" (content \'x\' with quotes), CPython gives x',
-	'triple_counterexample': 'without H2 agreement fails: \'\'\'a\'\'\' + \'b\' folds to \'\'\'a\'\'b\' (content \'\'a\'\'b), CPython gives ab',
-	'truediv_counterexample': 'without H1 agreement fails for an interpretation in which int/int is not float(a)/float(b) (18014398509481985 / 3)',
-	'arity_counterexample': 'without H5 agreement fails: int(\'12\', 16) folds to 12, CPython gives 18',
+	'sound': "for every expression, environment, fuel and interpretation of float: if CPython with the regions H1-H5 cut out evaluates e to v2 then the folder returns v ~ v2 (same type, same value, string content) or refuses (an application error that is not a wrapped Python exception, or the recursion limit) - induction over the fuel and the flat chains",
+	'agree': "execImpl e = ok v and evalPy e = ok v2 imply v ~ v2, provided CPython's own result on e is the result under the guards H1 (int/int = float(a)/float(b)), H2 (plain quoted string tokens), H3 (str() not applied to a string), H5a (casts have at most one argument)",
+	'refuse': 'inside the guards H1-H5: an error of execImpl is a refusal (OperationNotAllowed, UnresolvedSymbol, an error of type inference, the recursion limit) or CPython raises on e as well',
+	'chain': 'evaluating the left-nested tree CPython builds for a flat chain = the left fold over the chain (operand, operation, left to right, first exception wins)',
+	'consistent_bindAll': "executing the Enum bodies top to bottom yields an environment consistent with the folder's member lookup when member keys are distinct (hypothesis Cons is satisfiable)",
+	'agree_unguarded_counterexample': "the property statement without guards is false on the current code (witness str of a string literal)",
+	'strcast_counterexample': "H3 is necessary: str('x') folds to a string whose content still carries the quotes of 'x', CPython gives x",
+	'triple_counterexample': "H2 is necessary: a triple-quoted a plus 'b' folds to content ''a''b, CPython gives ab",
+	'truediv_counterexample': 'H1 is necessary: an interpretation in which int/int is not float(a)/float(b) separates 18014398509481985 / 3',
+	'arity_counterexample': "H5a is necessary: int('12', 16) folds to 12, CPython gives 18",
+	'upperhex_counterexample': 'H4 is necessary for refuse: 0X1F is 31 in CPython, the folder raises a wrapped ValueError',
+	'noarg_counterexample': 'H5b is necessary for refuse: int() is 0 in CPython, the folder raises a wrapped IndexError',
 }
 
 
@@ -1094,8 +1110,12 @@ def replay(ctx: Ctx, path: str) -> int:
 		print(f'replay: {m.key} = {m.text}: exec -> {real}; eval -> {show_py(case.py[m.key])}; {"VIOLATES: " + bad if bad else "holds"}')
 		if bad:
 			rc = 1
-	for key, first, again in case.unstable:
-		print(f'replay: {key}: first exec -> {first}, later exec -> {again}: VIOLATES (history-dependent)')
-		rc = 1
+	for m in case.members:
+		again = case.real2.get(m.key)
+		if inp.get('member') in (None, m.key) and again is not None and again != case.real.get(m.key):
+			bad2 = compare(again, case.py[m.key], 'escape' in feats)
+			print(f'replay: {m.key}: a later exec() on the same instance -> {again}; {"VIOLATES: " + bad2 if bad2 else "holds"}')
+			if bad2:
+				rc = 1
 	ctx.cleanup()
 	return rc
